@@ -218,8 +218,8 @@ class MasterDriver:
     def _server_record(self, name, cap, label, parent, traits):
         rng = self.rng
         rec = {'parent': parent, 'partition': label if (label != '_default' or rng.random() < 0.5) else None,
-               'memory': spell_mb(rng, cap[0]), 'cpu': celldrv.spell_cpu(rng, cap[1]),
-               'disk': spell_mb(rng, cap[2]), 'traits': list(traits),
+               'memory': celldrv.spell_cap(rng, cap[0], spell_mb), 'cpu': celldrv.spell_cpu(rng, cap[1]),
+               'disk': celldrv.spell_cap(rng, cap[2], spell_mb), 'traits': list(traits),
                'up_since': int(self.clock.peek()) - rng.choice([0, 3600, 86400 * 3])}
         return rec
 
@@ -274,7 +274,8 @@ class MasterDriver:
             i = rng.randrange(3)
             cap[i] = max(1, cap[i] - rng.choice([1, 2, 10]))
         rec = zs['rec']
-        spelled = dict(memory=spell_mb(rng, cap[0]), cpu=celldrv.spell_cpu(rng, cap[1]), disk=spell_mb(rng, cap[2]))
+        spelled = dict(memory=celldrv.spell_cap(rng, cap[0], spell_mb), cpu=celldrv.spell_cpu(rng, cap[1]),
+                       disk=celldrv.spell_cap(rng, cap[2], spell_mb))
         if mode == 'tiny':
             spelled = dict(memory='%dM' % cap[0], cpu=cap[1], disk='%dM' % cap[2])
         self.api.update_server_capacity(self.admin, name, **spelled)
@@ -354,30 +355,44 @@ class MasterDriver:
         rng = self.rng
         allocs = []
         used_patterns = set()
+        patterns = list(self.appnames) + [p + '.*' for p in self.proids] + [p + '.app*' for p in self.proids]
         for label in self.labels:
             for t in self.tenants:
                 if rng.random() < 0.75:
                     depth = rng.choice([1, 1, 2, 3])
                     parts = [t] + ['sub%d' % rng.randint(0, 1) for _ in range(depth - 1)]
-                    name = rng.choice(['/', ':']).join(parts)
-                    res = [rng.choice([0, 0, 1, 2, 4]) * 1024, rng.choice([0, 0, 1, 2, 4]) * 100,
-                           rng.choice([0, 0, 1, 2, 4]) * 1024]
-                    rank = rng.choice([100, 100, 50, 80, 120, 0])
-                    adj = min(rank, rng.choice([0, 0, 10, 20, 50]))
-                    obj = {'name': name, 'partition': label,
-                           'memory': spell_mb(rng, res[0]), 'cpu': celldrv.spell_cpu(rng, res[1]),
-                           'disk': spell_mb(rng, res[2]), 'rank': rank, 'rank_adjustment': adj,
-                           'max_utilization': rng.choice([None, None, None, 100, 2, 1.5, 1, 0.5, 0]),
-                           'traits': [rng.choice(sorted(self.known_traits))] if self.traits_on and self.known_traits and rng.random() < 0.25 else [],
-                           'assignments': []}
-                    for an in self.appnames:
-                        if an not in used_patterns and rng.random() < 0.25:
-                            used_patterns.add(an)
-                            obj['assignments'].append({'pattern': an, 'priority': rng.choice([0, 1, 10, 50])})
-                    obj['_res'] = res
-                    allocs.append(obj)
+                    # sometimes the allocations on the way down are defined too (an allocation that is
+                    # both a tenant's own and the parent of another one)
+                    chain = [parts]
+                    if depth > 1 and rng.random() < 0.5:
+                        chain += [parts[:i] for i in range(1, depth) if rng.random() < 0.7]
+                    for parts in chain:
+                        name = parts[0]
+                        for part in parts[1:]:
+                            name += rng.choice(['/', ':']) + part
+                        res = [rng.choice([0, 0, 1, 2, 4]) * 1024, rng.choice([0, 0, 1, 2, 4]) * 100,
+                               rng.choice([0, 0, 1, 2, 4]) * 1024]
+                        rank = rng.choice([100, 100, 50, 80, 120, 0])
+                        adj = min(rank, rng.choice([0, 0, 10, 20, 50]))
+                        obj = {'name': name, 'partition': label,
+                               'memory': spell_mb(rng, res[0]), 'cpu': celldrv.spell_cpu(rng, res[1]),
+                               'disk': spell_mb(rng, res[2]), 'rank': rank, 'rank_adjustment': adj,
+                               'max_utilization': rng.choice([None, None, None, 100, 2, 1.5, 1, 0.5, 0]),
+                               'traits': [rng.choice(sorted(self.known_traits))] if self.traits_on and self.known_traits and rng.random() < 0.25 else [],
+                               'assignments': []}
+                        for an in patterns:
+                            # an application may be matched by several entries (a wildcard and an exact one,
+                            # or the same pattern under two allocations): the first one listed decides
+                            if rng.random() < (0.25 if an not in used_patterns else 0.05):
+                                used_patterns.add(an)
+                                obj['assignments'].append({'pattern': an, 'priority': rng.choice([0, 1, 10, 50])})
+                        rng.shuffle(obj['assignments'])
+                        obj['_res'] = res
+                        allocs.append(obj)
         if not allocs:
             return
+        # the listing order is the administrator's: children may come before their parents
+        rng.shuffle(allocs)
         wire = [{k: v for k, v in a.items() if not k.startswith('_')} for a in allocs]
         self.api.update_allocations(self.admin, wire)
         self.Z['allocs'] = allocs
@@ -699,7 +714,7 @@ class MasterDriver:
             base = name.split('#')[0]
             prio, key = 1, ('_default', ('_default', base.split('.')[0]))
             for pat, p, k in self.assignments:
-                if pat == base:
+                if pat == base or (pat.endswith('*') and base.startswith(pat[:-1])):
                     prio, key = p, k
                     break
             if key not in H.allocs:
